@@ -4,7 +4,11 @@
 // Runtime monitor. Generated adversarial topologies (alias / DNAME / glueless
 // NS cycles and chains, fan-out referrals, ever-deeper delegations, lame and
 // self-referring servers, huge NS/DS/DNSKEY/RRSIG sets, same-tag key crowds,
-// high-iteration NSEC3) are served by scripted loopback authorities (authsim);
+// high-iteration NSEC3, and topologies that make the resolver restart or
+// re-enter resolution inside one request tree: parent-detection restarts under
+// qname-minimisation, the retry without minimisation, descents through a
+// delegation cached in mid-tree, alias targets that go through these) are
+// served by scripted loopback authorities (authsim);
 // the REAL sdns pipeline resolves one client question at a time against them
 // under recursion-firewall modes off / shadow / enforce with budgets from 1 to
 // the default. The oracle is the packet log of the scripted servers: the
@@ -17,6 +21,7 @@ import (
 	"fmt"
 	"os"
 	"strconv"
+	"strings"
 	"sync"
 	"time"
 
@@ -32,7 +37,7 @@ type runner struct {
 	r *vlib.Run
 }
 
-const rule = "distinct_nontrivial = distinct (topology kind, variant, size, signedness, TC-all, qname-min level, firewall mode, outbound budget) tuples for which at least one client query caused upstream packets at the scripted servers; evaluations = client replies judged + off/shadow pairs compared + over-budget replies and follow-ups judged + DNSSEC work-API cases judged"
+const rule = "distinct_nontrivial = distinct (topology kind, variant, size, signedness, TC-all, qname-min level, restart parameters, firewall mode, outbound budget) tuples for which at least one client query caused upstream packets at the scripted servers; evaluations = client replies judged + off/shadow pairs compared + over-budget replies and follow-ups judged + DNSSEC work-API cases judged"
 
 func main() {
 	r := vlib.Start("C12", "exploration")
@@ -44,6 +49,8 @@ func main() {
 	r.Assume("whether a request tree crossed a budget is OBSERVED for that very query: the exhaustion counters every ledger publishes on release (hook VerifC12Exhaustions) are read before and after it; nothing is inferred from a run with other settings")
 	r.Assume("a budget crossed only by optional work (DebitBestEffort: detached IPv6 enrichment) legitimately leaves the reply untouched; the over-budget reply is the one whose required work was refused — SERVFAIL carrying sdns's work-budget EDE, or for a non-EDNS client SERVFAIL of a tree that recorded a crossing")
 	r.Assume("a packet overrun or an off/shadow difference is reported only if it reproduces on a second fresh stack with the same configuration (the resolver races servers; the loopback ports are shared with other processes); an overrun that does not reproduce makes the run inconclusive")
+	r.Assume("restarts inside one request tree (parent-detection restart, retry without minimisation, descent through a delegation cached in mid-tree) are recognised in the packet log by behaviour only a restart explains (restart.go: the scripted authority is asked again after its referral was delivered; a longer name is asked where every attempt for the minimised one failed on the wire; a question of the client's type reaches the server only the cached delegation names); sdns has no counter for them. They are counted on stacks with ipv6access off only")
+	r.Assume("restart kinds: the outbound budgets of the shadow, enforce-small and enforce-mid stacks are drawn from [packets before the first post-restart packet, packets of the whole tree - 1] as observed on the firewall-off stack of the same topology (same seed, same index); the verdicts applied are the unchanged per-query ones")
 	run := &runner{r: r}
 
 	if raw := r.ReplayCase(); raw != nil {
@@ -85,6 +92,9 @@ func main() {
 			hi = lo + 1
 		}
 		for i := lo; i < hi; i++ {
+			if k := os.Getenv("C12_KIND"); k != "" && !strings.Contains(kinds[i%len(kinds)], k) {
+				continue
+			}
 			run.topology(i)
 		}
 		r.Finish(rule)
@@ -153,6 +163,21 @@ func main() {
 	for _, reason := range []string{"outbound_queries", "internal_queries", "signature_checks", "ds_digests", "nsec3_hashes", "dnskey_candidates", "rrset_signature_checks"} {
 		r.Require("crossed_reason/"+reason, 1)
 	}
+	// restarts / re-entries inside one request tree were really observed
+	// (packet-log evidence, restart.go), within a budget that the work after
+	// them then crossed
+	perKind := int64(nTopo / len(kinds))
+	r.Require("restart/budgets_placed_around_restart", perKind*2)
+	for _, fam := range restartFamilies {
+		r.Require("restart/"+fam+"/queries", perKind*2)
+		r.Require("restart/"+fam+"/off_queries", perKind/4)
+		r.Require("restart/"+fam+"/shadow_queries_budget_crossed_after_restart", perKind/4)
+		r.Require("restart/"+fam+"/enforce_queries", perKind/2)
+		r.Require("restart/"+fam+"/enforce_queries_budget_crossed_after_restart", perKind/2)
+		r.Require("restart/"+fam+"/enforce_over_budget_servfail_after_restart", perKind/2)
+	}
+	r.Require("restart/parent/queries_via_alias", 2)
+	r.Require("restart/fallback/queries_via_alias", 2)
 	r.Require("workapi_cases", int64(nWork))
 	r.Require("workapi_cases_with_expensive_ops", int64(nWork/2))
 	r.Require("workapi_refusals_observed", int64(nWork/4))
